@@ -3,6 +3,7 @@
 -/
 import BB.Model
 import Driver.ExecProto
+import Driver.DfuProto
 open BB BB.Spec
 
 namespace Driver
@@ -155,10 +156,17 @@ def handle (line : String) : String :=
     | some r => r
     | none => "bad-request"
 
-partial def loop (i o : IO.FS.Stream) : IO Unit := do
+partial def loop (i o : IO.FS.Stream) (st : DfuState := DfuState.init) : IO Unit := do
   let line ← i.getLine
   if line.isEmpty then return ()
-  o.putStrLn (handle line)
-  loop i o
+  let toks := (line.trimAscii.toString.splitOn " ").filter (· ≠ "")
+  match handleDfu st toks with
+  | some (st', reply) =>
+    o.putStrLn reply
+    o.flush
+    loop i o st'
+  | none =>
+    o.putStrLn (handle line)      -- batch commands: no flush per line (block-buffered output)
+    loop i o st
 
 end Driver
